@@ -140,7 +140,11 @@ def child_main(spec):
         fs = snowflake.connector.connect.side_effect.__self__
         result["pre_exit"] = crash_norm(observe.catalog(fs, views=True, data=True))
         # what the session itself sees (its own connection: includes work it has not committed)
-        own = getattr(conn._duck_conn, "_r", conn._duck_conn)  # noqa: SLF001
+        # the session's engine connection, found by type rather than by the name of a private attribute
+        own = next((v for v in vars(conn).values() if isinstance(v, seam.Proxy)), None)
+        if own is None:
+            raise RuntimeError("harness: the session object holds no engine connection created through the seam")
+        own = own._r  # noqa: SLF001
         result["own_view"] = crash_norm(observe.catalog(fs, views=True, data=True, cur=own))
         write()
         if mode == "exception":
